@@ -331,6 +331,29 @@ def outer_loads(ctx, r, F):
         okimm = len(imms) >= 2 and len(imms) % 2 == 0 and all(imms[j:j + 2] == [0xEE, 0x55] for j in range(0, len(imms), 2))
         ctx.ob(r, (path.rsplit("::", 2)[-2] + "::" + path.rsplit("::", 1)[-1], "reduction-shuffles"), okimm,
                "%s reduces lanes with shuffle immediates %s; reference pairs (0xEE, 0x55)" % (path, [hex(x) if x is not None else None for x in imms]), cfg=F.key, where=b.where())
+        # accumulator lane width: every vector add in the outer function uses the lane width of the kernel's result
+        # (16-bit sums for SSE2, 32-bit for SSE4.1/AVX2); a narrower add would wrap partial sums
+        want_lane = {"sse2": "16", "sse4.1": "32", "avx2": "32"}[fam]
+        adds = []
+        for i, blk in enumerate(b.blocks):
+            t = blk["term"]
+            if t["t"] == "call":
+                m_ = re.search(r"_mm(?:256)?_(add|adds|sub)_epi(\d+)$", t["callee"].get("path") or "")
+                if m_:
+                    adds.append(m_.group(2))
+        ctx.ob(r, (path.rsplit("::", 2)[-2] + "::" + path.rsplit("::", 1)[-1], "accumulator-lane-width"), bool(adds) and set(adds) == {want_lane},
+               "%s accumulates with %s-bit vector adds; reference %s-bit lanes (the kernel's result width)" % (path, sorted(set(adds)), want_lane), cfg=F.key, where=b.where())
+        # final scalar extraction
+        tail_calls = [((t["callee"].get("path") or "").rsplit("::", 1)[-1]) for _, t in b.calls()]
+        if fam == "sse2":
+            okx = tail_calls.count("_mm_cvtsi128_si32") == 1 and "wrapping_add" in tail_calls and "wrapping_shr" in tail_calls
+        elif fam == "sse4.1":
+            okx = tail_calls.count("_mm_cvtsi128_si32") == 1
+        else:
+            ex = [imm_of(b, i) for i, blk in enumerate(b.blocks) if blk["term"]["t"] == "call" and (blk["term"]["callee"].get("path") or "").endswith("_mm256_extract_epi32")]
+            okx = len(ex) >= 2 and len(ex) % 2 == 0 and all(ex[j:j + 2] == [0, 4] for j in range(0, len(ex), 2))
+        ctx.ob(r, (path.rsplit("::", 2)[-2] + "::" + path.rsplit("::", 1)[-1], "scalar-extraction"), okx,
+               "%s extracts the final sum differently from its family's recorded shape (%s)" % (path, tail_calls[-6:]), cfg=F.key, where=b.where())
         # kernel called on pairs (x_i, y_i) of the same chunk, and every result is accumulated
         kern = BODY_KERNELS[fam]
         pairs_ok = True
